@@ -98,7 +98,10 @@ def _defs_of(doc):
 
 
 @st.composite
-def worlds(draw, ninst=3, hostile_names=True):
+def worlds(draw, ninst=3, hostile_names=True, split_paths=False):
+    """split_paths: put the root's own use of the shared fragment text and the reference into an external
+    document that uses the same text under different properties, and add instances reaching only one of them
+    (history-dependence needs validations that take different paths)."""
     d = draw(st.sampled_from(impl.DRAFTS))
     idkw = impl.IDKW[d]
     classes = []
@@ -113,13 +116,20 @@ def worlds(draw, ninst=3, hostile_names=True):
     ext = draw(st.lists(st.sampled_from(EXT_URIS), max_size=3, unique=True))
     docs, via = {}, {}
     targets = []            # (uri, tokens, is_recursive_ok)
+    # one definition name present in the root AND in the external documents, referred to by the very same
+    # fragment-only string from inside each: same reference text, different base, different target
+    shared = draw(st.sampled_from(names))
+    shared_ref = "#" + optr.encode(["definitions", shared])
     for u in ext:
         dd = {"definitions": dict((n, draw(leaf)) for n in draw(st.lists(st.sampled_from(names), min_size=1, max_size=3, unique=True)))}
+        dd["definitions"][shared] = draw(leaf)
         dd.update(draw(leaf))
         if draw(st.booleans()):
             dd[idkw] = u
         docs[u] = dd
-        via[u] = draw(st.sampled_from(["store", "store", "handler", "handler", "missing"]))
+        via[u] = draw(st.sampled_from(["store", "store", "store#", "handler", "handler", "missing"]))
+        if via[u] == "store#":
+            classes.append("store-key-trailing-#")
         targets.append((u, ()))
         for n in dd["definitions"]:
             targets.append((u, ("definitions", n)))
@@ -132,7 +142,11 @@ def worlds(draw, ninst=3, hostile_names=True):
         others = [t for t in targets if t[0] != u]
         pool = own + own + others
         tu, tt = draw(st.sampled_from(pool))
-        r, lab = draw(render_ref(u, u, tu, tt, True))
+        if draw(st.booleans()):
+            r, lab = shared_ref, "fragment-only"
+            classes.append("same-fragment-text-different-base")
+        else:
+            r, lab = draw(render_ref(u, u, tu, tt, True))
         if r is None:
             continue
         name = draw(st.sampled_from(["r", "r/1", "~r"]))
@@ -145,6 +159,8 @@ def worlds(draw, ninst=3, hostile_names=True):
     # ---- root definitions: layer 0 ref-free, layer 1 may refer to layer 0 / externals ----------
     defs = {}
     l0 = draw(st.lists(st.sampled_from(names), min_size=1, max_size=4, unique=True))
+    if shared not in l0:
+        l0.append(shared)
     for n in l0:
         defs[n] = draw(leaf)
         targets.append((root_doc, ("definitions", n)))
@@ -210,6 +226,8 @@ def worlds(draw, ninst=3, hostile_names=True):
     allpool = list(targets)
 
     def REF(base=root_base, allow_frag=True, pool=None):
+        if pool is None and not exotic and draw(st.integers(0, 5)) == 0:
+            return {"$ref": shared_ref}
         r = mkref(base, allow_frag, pool or allpool)
         return r if r is not None else draw(leaf)
 
@@ -282,6 +300,19 @@ def worlds(draw, ninst=3, hostile_names=True):
                 if not nid.startswith("http"):
                     classes.append("nested-id-relative")
     xs = draw(st.lists(instances(), min_size=ninst, max_size=ninst))
+    if split_paths:
+        inner = [(u, t) for (u, t) in targets if u != root_doc and t and t[-1] in ("r", "r/1", "~r")]
+        if inner and not exotic and isinstance(root.get("properties", {}), dict):
+            tu, tt = draw(st.sampled_from(inner))
+            r, lab = draw(render_ref(root_base, root_doc, tu, tt, False))
+            if r is not None:
+                props = root.setdefault("properties", {})
+                props["s1"] = {"$ref": shared_ref}
+                props["s2"] = {"$ref": r}
+                classes.append("split-paths")
+                v1, v2 = draw(inst_scalar), draw(inst_scalar)
+                order = draw(st.permutations([{"s1": v1}, {"s2": v2}, {"s1": v2, "s2": v1}]))
+                xs = list(order) + xs
     return {"kind": "world", "draft": d, "root": root, "docs": docs, "via": via, "instances": xs,
             "classes": sorted(set(classes))}
 
@@ -340,7 +371,9 @@ def build_validator(case, handler=None, **resolver_kwargs):
     d = case["draft"]
     cls = impl.CLS[d]
     root = copy.deepcopy(case["root"])
-    store = dict((u, copy.deepcopy(dd)) for u, dd in case["docs"].items() if case["via"].get(u) == "store")
+    # "store#": the document is supplied under its URI with an empty fragment (common for draft 3/4 ids)
+    store = dict((u + ("#" if case["via"].get(u) == "store#" else ""), copy.deepcopy(dd))
+                 for u, dd in case["docs"].items() if case["via"].get(u) in ("store", "store#"))
     handler = handler or Handler(case)
     resolver = impl.validators.RefResolver.from_schema(
         root, id_of=cls.ID_OF, store=store, handlers={"http": handler, "https": handler, "x-sch": handler,
@@ -381,7 +414,7 @@ def wellformed(case):
             except impl.exceptions.SchemaError:
                 return False, "document-rejected-by-check_schema"
         for u in case["docs"]:
-            if case["via"].get(u) not in ("store", "handler", "missing"):
+            if case["via"].get(u) not in ("store", "store#", "handler", "missing"):
                 return False, "malformed-world"
             did = case["docs"][u].get(idkw)
             if did is not None and doc_uri(did) != u:
